@@ -216,6 +216,26 @@ def item_of_line(report, line):
     return ("template", None)
 
 
+def is_fn_item(it):
+    return "fn" in it["selector"].split()
+
+
+def qual_name(it):
+    """Type::name for impl methods, name for free functions (as Verus prints them, modulo the module prefix)."""
+    sel = it["selector"].split()
+    name = sel[-1]
+    if "impl" in sel:
+        i = sel.index("impl")
+        ty = sel[i + 3] if len(sel) > i + 2 and sel[i + 2] == "for" else sel[i + 1]
+        return ty + "::" + name
+    return name
+
+
+def verus_fn_matches(vname, it):
+    q = qual_name(it)
+    return vname == q or vname.endswith("::" + q)
+
+
 def fn_name_of_item(it):
     sel = it["selector"].split()
     return sel[-1]
@@ -372,16 +392,17 @@ def run_property(prop, tier, seed, replay, t0):
         smt_ms += res.get("smt_ms", 0)
         fnames = {}
         for it in rep["items"]:
-            if it["selector"].split()[0] in ("fn", "impl") and prop in it["props"]:
+            if is_fn_item(it) and prop in it["props"]:
                 my_items.append((u, it))
         # obligations: all proved functions of the unit that are not canaries (lemmas are part of the argument)
-        foreign = set(fn_name_of_item(it) for it in rep["items"] if it["selector"].split()[0] in ("fn", "impl") and prop not in it["props"])
+        fn_items = [it for it in rep["items"] if is_fn_item(it)]
         for fn, n in res["obligations"].items():
-            if "__canary" in fn or fn.split("::")[-1] in foreign:
+            owner = [it for it in fn_items if verus_fn_matches(fn, it)]
+            if "__canary" in fn or (owner and not any(prop in it["props"] for it in owner)):
                 continue
             ok = res["functions"].get(fn, {}).get("success", True)
             failed_here = any(fn.endswith("::" + fn_name_of_item(it)) for it in [i for i in rep["items"]] if False)
-            allbad = [f for f in an["failures"] if fn.split("::")[-1] == f["item"].split()[-1]]
+            allbad = [f for f in an["failures"] if any(it["selector"] == f["item"] for it in owner)]
             bad = [f for f in allbad if prop in f["props"]]
             other = len(allbad) - len(bad)   # failing clauses tagged for other properties only: not this property's obligations
             n_mine = max(n - other, 0)
